@@ -941,7 +941,8 @@ Proof.
   apply andb_true_iff in JL2. destruct JL2 as [JL2 HC].
   apply negb_true_iff in NC.
   apply str_eqb_eq in JL2. subst w.
-  destruct (phys root (rev (s_workspace :: rproj))) as [ph0|] eqn:PH; [|rewrite PH in PHX; discriminate PHX].
+  change (rev rproj ++ [s_workspace]) with (rev (s_workspace :: rproj)) in *.
+  destruct (phys root (rev (s_workspace :: rproj))) as [ph0|] eqn:PH; [|discriminate PHX].
   destruct (innermost_some _ _ _ IN) as [rpost [RC [Hi NP]]].
   assert (EC : comps = rev (s_workspace :: rproj) ++ i :: rev rpost).
   { apply (f_equal (@rev str)) in RC. rewrite rev_involutive in RC. rewrite RC.
@@ -958,14 +959,15 @@ Proof.
     - rewrite forallb_rev. exact NP. }
   assert (SG : abspath cwd path = segs (pre ++ i :: rev rpost)).
   { rewrite Habs, EC. apply abs_of_segs. destruct pre; discriminate. }
-  assert (XA : os_exists root cwd (abspath cwd path) = true) by (rewrite Habs, EX; exact EA).
+  assert (XA : os_exists root cwd (abspath cwd path) = true) by (rewrite Habs; exact EX).
   rewrite (get_job_innermost root cwd path pre i (rev rpost) SG Hi NR XA) in Q.
   assert (SJ : segs (pre ++ [i]) = abs_of (pre ++ [i])) by (symmetry; apply abs_of_segs; destruct pre; discriminate).
   rewrite SJ in Q.
   (* the project search from /pre/i/.. *)
   assert (NE : nearest root (s_workspace :: rproj) = Some (rev rproj)).
-  { simpl nearest. change (rev rproj ++ [s_workspace]) with (rev (s_workspace :: rproj)). rewrite NC.
-    apply nearest_has_cfg_here. exact HC. }
+  { change (nearest root (s_workspace :: rproj)) with
+      (if has_cfg root (rev (s_workspace :: rproj)) then Some (rev (s_workspace :: rproj)) else nearest root rproj).
+    fold pre. rewrite NC. apply nearest_has_cfg_here. exact HC. }
   assert (Crp : forallb cleanb (s_workspace :: rproj) = true) by (rewrite <- forallb_rev; exact Cpre).
   pose proof (nearest_sound root cwd _ _ Crp NE) as NS. fold pre in NS.
   assert (GP : get_project root cwd (path_join (abs_of (pre ++ [i])) s_pardir) true
@@ -975,14 +977,25 @@ Proof.
     unfold s_pardir. rewrite (abspath_pardir cwd pre i Cpre Ci). exact NS. }
   rewrite GP in Q.
   assert (Crr : forallb cleanb (rev rproj) = true).
-  { rewrite forallb_rev. simpl in Crp. apply andb_true_iff in Crp. tauto. }
+  { rewrite forallb_rev. simpl in Crp. first [exact Crp | apply andb_true_iff in Crp; tauto]. }
   destruct (project_open root cwd (abs_of (rev rproj))) as [[x|e] root'] eqn:PO.
   - apply project_open_Ok in PO. destruct PO as [Ex _]. rewrite (abspath_abs_of cwd _ Crr) in Ex. subst x.
-    rewrite Q, NE. rewrite qres_eqb_refl. simpl andb.
-    rewrite PH. rewrite (norm_split_abs_of _ Crr).
+    rewrite Q, NE. rewrite qres_eqb_refl. rewrite andb_true_l, andb_true_r. cbv iota beta.
+    rewrite (norm_split_abs_of _ Crr).
     change (rev rproj ++ [s_workspace]) with (rev (s_workspace :: rproj)). fold pre. rewrite PH.
-    rewrite optpath_eqb_refl. reflexivity.
+    apply optpath_eqb_refl.
   - rewrite Q in Hvoc. simpl in Hvoc. destruct e; try contradiction.
     exfalso. eapply project_open_not_lookup; [|exact PO].
     rewrite cfg_at_has_cfg by exact Crr. exact HC.
 Qed.
+
+Lemma model_holds_get_project : forall base tree q s,
+  q_kind q = QProject s -> pre_q base tree q = true -> agree_q base tree q = true ->
+  outcome_in_vocabulary (q_kind q) (q_res q) -> holds_q base tree q = true.
+Proof. intros base tree q s K P A V. apply model_holds_C19; auto. rewrite K. discriminate. Qed.
+
+Lemma model_holds_init : forall base tree q,
+  q_kind q = QInit -> pre_q base tree q = true -> agree_q base tree q = true ->
+  outcome_in_vocabulary (q_kind q) (q_res q) -> q_changed q = false ->
+  holds_q base tree q = true.
+Proof. intros base tree q K P A V C. apply model_holds_C19; auto. Qed.
